@@ -126,6 +126,18 @@ def check(ctx):
     for fn, node, op, st, ok, why in js.uses:
         run.add('C15.typestate', fn.module.name, fn.qualname, node, ok,
                 f'[{st}] {op}: {why}', node=node, nontrivial=(op != 'benign'))
+    # the typed getters themselves, by interpretation (E7): whatever is not a value of the requested type is refused with
+    # DznJsonError - null, a fraction, a container of the other kind - and never handed back to the caller
+    from .shared import getters_by_interpretation
+    gi = getters_by_interpretation(ctx)
+    if gi is not None:
+        probs, n_eval = gi
+        eh_ = prog.cls('json_ast', 'ElementHelper')
+        for g in sorted({g for g, _k, _t in probs} | {m for m in eh_.methods if m.endswith('_value')}):
+            mine = [t for g2, k, t in probs if g2 == g and k == 'leak']
+            run.add('C15.typestate', eh_.module.name, f'ElementHelper.{g}', f'{g}: present / absent x 13 kinds of value', not mine,
+                    f'{g} refuses every value that is not of its type (null included) with DznJsonError' if not mine else '; '.join(mine[:2]))
+        run.stats['getters_decided_by'] = f'interpretation of the ElementHelper getters on {n_eval} elements (E7)'
     run.floor('C15.typestate', 60)
     # the getters really check before returning: their result states must be the checked ones
     eh = prog.cls('json_ast', 'ElementHelper')
